@@ -401,6 +401,10 @@ func (g *Gen) genC11(n int) error {
 				ids = append(ids, []byte(id))
 			}
 			g.emit("q docnums %s ids=%s", seg, hxList(ids))
+			// every caller owns the answer it gets (and may add to it), also the empty one
+			g.emit("q docnums %s ids=- mut=1", seg)
+			g.emit("q docnums %s ids=%s mut=1", seg, hxList(ids[:1]))
+			g.emit("q docnums %s ids=-", seg)
 			for _, th := range sortedFieldNames(u.Thes) {
 				for _, t := range sortedKeys(u.Thes[th]) {
 					g.emit("q thes %s %s %s ex=nil", seg, th, hx([]byte(t)))
